@@ -286,6 +286,9 @@ def eval_rate(case):
     return mkres(case, nt=bool(nb), classes=cl, fails=fails)
 
 
+# digit runs of a few dozen characters in strings that are *almost* version numbers (what a pattern with nested repetition chokes on)
+NEAR_VERSIONS = ['SSH-2.0-OpenSSH_%s..1', 'SSH-2.0-OpenSSH_%s.x', 'SSH-2.0-OpenSSH_%s.1.', 'SSH-2.0-OpenSSH_1.%s..', 'SSH-2.0-dropbear_%s..80', 'SSH-2.0-dropbear_2020.%s-', 'SSH-2.0-libssh_%s.1..2', 'SSH-2.0-libssh-0.%s.x', 'SSH-2.0-OpenSSH_%sp1..', 'SSH-2.0-OpenSSH_%s.%s.%s..p1',
+                 'SSH-2.%s..0-OpenSSH_9.0', 'SSH-1.%s.5-OpenSSH_3.0', 'SSH-2.0-tinyssh_%s..', 'SSH-2.0-PuTTY_Release_0.%s..']
 BIG_BANNERS = ['SSH-2.%s-OpenSSH_9.0', 'SSH-1.%s-OpenSSH_3.0', 'SSH-%s.0-OpenSSH_9.0', 'SSH-2.0-OpenSSH_%s', 'SSH-2.0-OpenSSH_9.%s', 'SSH-2.0-OpenSSH_9.%sp1 Debian-1', 'SSH-2.0-OpenSSH_%s.%s', 'SSH-2.0-dropbear_%s.80', 'SSH-2.0-dropbear_2020.%s',
                'SSH-2.0-libssh_0.%s.1', 'SSH-2.0-libssh-0.9.%s', 'SSH-2.0-tinyssh_%s', 'SSH-2.0-PuTTY_Release_0.%s', 'SSH-2.0-Cisco-1.%s', 'SSH-1.99-SSH-2.%s-OpenSSH_9.0', 'SSH-2.0-x %s', 'SSH-2.0-%s', 'SSH-2.0-OpenSSH_for_Windows_%s.1',
                'SSH-2.0-OpenSSH_9.0 FreeBSD-%s', 'SSH-2.0-OpenSSH_9.0p1 Ubuntu-%subuntu0.%s', 'SSH-2.0-ROSSSH_%s', 'SSH-2.0-mpSSH_0.%s.1', 'SSH-2.0-RomSShell_%s.62']
@@ -502,6 +505,8 @@ def enumerate_faults(name, quick, rng):
                 add(idx, what, ['set_len', v])
             for v in (0, 1, 3, 200, 255):
                 add(idx, what, ['set_pad', v])
+            for pad in (4, 64, 120, 127, 128, 136, 200, 248):
+                add(idx, what, ['pad_legal', pad])          # any legal amount of padding is a well-formed packet
             for pad in (4, 5, 12, 255):
                 if (len(payload) + 5 + pad) % 8 == 0 or True:
                     add(idx, what, ['pad', pad])
@@ -643,6 +648,7 @@ def run(ctx):
     ctx.note(rate_check_stage_cases=len(rate))
     big = [{'kind': 'bignum', 'form': f, 'n': n, 'digit': d, 'mode': m} for f in BIG_BANNERS for n in ((4300, 4301, 20000) if ctx.quick else (19, 20, 310, 4299, 4300, 4301, 5000, 20000, 70000)) for d in ('9', '10', '0')
            for m in (('text', 'json', 'client') if not ctx.quick else ('text', 'json' if len(f) % 2 else 'policy'))]
+    big += [{'kind': 'bignum', 'form': f, 'n': n, 'digit': d, 'mode': m} for f in NEAR_VERSIONS for n in ((28, 45) if ctx.quick else (22, 28, 34, 45, 80, 300)) for d in ('1', '90') for m in ('text', 'json')]
     ctx.map(big)
     ctx.note(long_number_banner_cases=len(big))
     odd = [{'kind': 'names', 'mode': m, 'cat': c, 'name': n, 'alone': al} for m in NAME_MODES for c in ('kex', 'key', 'enc', 'mac', 'comp') for n in ODD_NAMES for al in (True, False)]
